@@ -315,6 +315,24 @@ theorem C12_display_alt_suffix (w n d : Nat) (e : Rat) :
       simp only [dsp_display_fraction, if_neg hv, dsp_errSuffix_rat]
       simp [he]
 
+/-- A shown suffix never reads `(+0)`: when the recorded error exceeds 0.001 in absolute value its
+    rounding to three decimals is not zero and has the sign of the error. -/
+theorem C12_display_alt_suffix_nonzero (e : Rat) (h : 1 / 1000 < Rat.abs e) :
+    (0 < e → 0 < ratRound (e * 1000)) ∧ (e < 0 → ratRound (e * 1000) < 0) := by
+  have habs : Rat.abs e = if 0 ≤ e then e else -e := rfl
+  constructor
+  · intro hp
+    have h0 : 0 ≤ e * 1000 := by grind
+    rw [ratRound_nonneg h0]
+    have : (1 : Int) ≤ (e * 1000 + 1 / 2).floor := Rat.le_floor_iff.2 (by rw [habs] at h; split at h <;> grind)
+    omega
+  · intro hn
+    have h0 : ¬ (0 ≤ e * 1000) := by grind
+    unfold ratRound
+    rw [if_neg h0]
+    have : (1 : Int) ≤ (-(e * 1000) + 1 / 2).floor := Rat.le_floor_iff.2 (by rw [habs] at h; split at h <;> grind)
+    omega
+
 /-- Printed fraction + recorded error = value, in the alternate form, for every result of `new_approx`:
     the plain part of the printed text reads (as `w`, `n/d` or `w n/d`) as a number `x` with
     `x + err = v` exactly, and the text is that part alone when `|err| ≤ 0.001`, or that part followed
@@ -414,6 +432,8 @@ example : (Number.fraction 2 1 3 (1 / 300 : Rat)).display true = "2 1/3 (+0.003)
 example : (Number.fraction 2 1 3 (-1 / 300 : Rat)).display true = "2 1/3 (-0.003)".toList := by decide +kernel
 example : (Number.fraction 0 1 4 (1 / 10000 : Rat)).display true = "1/4".toList := by decide +kernel
 example : (Number.fraction 3 0 1 (1 / 100 : Rat)).display false = "3".toList := by decide +kernel
+/-- the hypothesis of `C12_display_alt_suffix_nonzero` -/
+example : (1 : Rat) / 1000 < Rat.abs (1 / 300) := by decide +kernel
 /-- a fraction whose value is zero -/
 example : (Number.fraction 1 0 1 (-1 : Rat)).display true = "0".toList := by decide +kernel
 /-- the f64 instance: hypotheses of `C12_display_fraction_shapes_any_arith` on concrete numbers -/
